@@ -156,7 +156,7 @@ def make_cases(seed: int, tier: str, n_cases: int | None = None) -> list[dict]:
         rs = rng(cs, "rerun")
         histories.append([{"sigma": engine.sample_sigma(rs, ["enum"]), "options": options},
                           {"sigma": engine.sample_sigma(rs, ["cwd", "out_spelling", "enum"]), "options": options}])
-        if histories[-1][1]["sigma"].get("out_spelling") == "nested":
+        if histories[-1][1]["sigma"].get("out_spelling") in ("nested", "nested_rel"):
             histories[-1][1]["sigma"]["out_spelling"] = "abs"
         cases.append({"index": idx, "case_seed": cs, "verif_seed": seed, "pkg": pkg, "options": options, "histories": histories})
     return cases
